@@ -61,6 +61,9 @@ def tainted_params(fn, is_method):
     return names
 
 
+from ..core import enclosing_function as core_enclosing
+
+
 def free_tainted(fn):
     """names of enclosing functions' parameters that a nested function can see"""
     out = set()
@@ -72,6 +75,30 @@ def free_tainted(fn):
                     out.add(x.arg)
         p = getattr(p, '_parent', None)
     return out
+
+
+def free_containers(fn, tainted):
+    """locals of the enclosing functions that a nested function sees and that were built there from the parse result without
+    copying its objects (`tokens = list(enumerate(tree.tokens))`, `todo = tree.tokens[:]`): the container is the printer's own,
+    what it holds is not."""
+    out = set()
+    p = getattr(fn, '_parent', None)
+    while p is not None:
+        if isinstance(p, ast.FunctionDef):
+            known = set(tainted) | {a.arg for a in p.args.args if a.arg != 'self'}
+            for _ in range(3):
+                for a in ast.walk(p):
+                    if not (isinstance(a, ast.Assign) and len(a.targets) == 1 and isinstance(a.targets[0], ast.Name) and core_enclosing(a) is p):
+                        continue
+                    v = a.value
+                    shallow = isinstance(v, (ast.ListComp, ast.SetComp, ast.GeneratorExp, ast.DictComp, ast.Attribute, ast.Subscript, ast.Name, ast.List, ast.Tuple, ast.Dict)) or \
+                        (isinstance(v, ast.Call) and isinstance(v.func, ast.Name) and v.func.id in effects.SHALLOW) or \
+                        (isinstance(v, ast.Call) and isinstance(v.func, ast.Attribute) and v.func.attr in effects.ELEMENT_METHODS | {'copy'})
+                    if shallow and any(isinstance(x, ast.Name) and x.id in known | out for x in ast.walk(v)):
+                        out.add(a.targets[0].id)
+        p = getattr(p, '_parent', None)
+    own = {a.arg for a in fn.args.args} | {x.id for x in ast.walk(fn) if isinstance(x, ast.Name) and isinstance(x.ctx, ast.Store)}
+    return out - own - set(tainted)
 
 
 def r_printers_pure(repo, rep, R1='R18.1', R2='R18.2', consequence='a later rendering sees the changed object'):
@@ -121,7 +148,7 @@ def r_printers_pure(repo, rep, R1='R18.1', R2='R18.2', consequence='a later rend
             pending.append((mod, fn, is_method))
             continue
         tainted = set(tainted_params(fn, is_method)) | free_tainted(fn)
-        results[id(fn)] = (mod, fn, tainted, analyse(mod, fn, is_method, tainted))
+        results[id(fn)] = (mod, fn, tainted, analyse(mod, fn, is_method, tainted, free_containers(fn, tainted)))
     for _ in range(3):          # helpers calling helpers: taint settles in a few rounds
         for mod, fn, is_method in pending:
             h = helpers[(mod.rel, fn.name)]
